@@ -238,6 +238,12 @@ func wrap(w http.ResponseWriter, r *http.Request, tx types.Transaction) (
 			return nil
 		}
 
+		// The handler returned without writing anything: the server is going to
+		// answer with an implicit 200, and the response rules have to see it.
+		if !i.wroteHeader {
+			i.WriteHeader(http.StatusOK)
+		}
+
 		// We look for interruptions triggered at phase 3 (response headers)
 		// and during writing the response body. If so, response status code
 		// has been sent over the flush already.
